@@ -82,7 +82,8 @@ def leaves(ty, types, bearing, depth=0):
     itself: a type that mentions Expression/Block/FunInfo directly is one leaf; a struct is opened."""
     names = set(_TYNAME.findall(ty))
     if names & {"Expression", "Block", "FunInfo"} or depth > 4:
-        return [()]
+        # an operand (its value is always popped by the parent's evaluation step) or a block / function body
+        return [("<operand>",)] if "Expression" in names and not names & {"Block", "FunInfo"} else [()]
     out = []
     for nm in sorted(names & bearing):
         for fname, fty in types.get(nm, []):
@@ -124,7 +125,7 @@ def flag_pass_family(sh):
     return {fn["name"]: fn for impl, fn, test in out if not test and impl is None and fn["name"].startswith("set_is_used_")}
 
 
-def used_flag_recurse(sh, res):
+def used_flag_recurse(sh, res, rule="USED-FLAG-RECURSE"):
     """USED-FLAG-RECURSE: the pass that decides which expressions push a value reaches every sub-expression."""
     types = ast_types(sh)
     bearing = bearing_names(types)
@@ -133,6 +134,8 @@ def used_flag_recurse(sh, res):
         raise M.MissingAnchor("parser::set_is_used_expr not found")
     variants = {v["name"]: v["fields"] for v in S.find_enum(sh, AST, "Expression_")["variants"]}
     fn = fam["set_is_used_expr"]
+    bools = [p_["name"] for p_ in fn["params"] if p_["ty"].strip() == "bool"]
+    flag_param = bools[0] if bools else None
     ms = [m for m in S.matches_in(fn["body"]) if any("Expression_::" in (a.get("pat_txt") or "") for a in m["arms"])]
     if not ms:
         raise M.MissingAnchor("set_is_used_expr has no match over Expression_")
@@ -191,7 +194,32 @@ def used_flag_recurse(sh, res):
                 tainted = _taint(arm["body"], binds)
                 for leaf in leaves(f["ty"], types, bearing):
                     n_ob += 1
+                    operand = bool(leaf) and leaf[-1] == "<operand>"
+                    if operand:
+                        leaf = leaf[:-1]
                     c = calls_with(arm["body"], tainted, leaf)
+                    if c is not None and operand and c["f"]["path"] == "set_is_used_expr" and len(c["args"]) == 2:
+                        # USED-FLAG-VALUE: the parent's evaluation step always pops an operand's value, so the operand is
+                        # flagged used unconditionally; only parentheses hand their own flag down
+                        flag = c["args"][1]
+                        bad_flags = []
+                        for n_ in S.walk(arm["body"]):
+                            if n_["k"] == "Call" and n_["f"]["k"] == "Path" and n_["f"]["path"] == "set_is_used_expr" and len(n_["args"]) == 2 \
+                                    and (S.idents_in(n_["args"][0]) & tainted) and (not leaf or leaf[-1] in {x["name"] for x in S.walk(n_["args"][0]) if x["k"] == "Field"} or not any(x["k"] == "Field" for x in S.walk(n_["args"][0]))):
+                                fl = n_["args"][1]
+                                is_true = fl["k"] == "LitBool" and fl["v"] is True
+                                is_param = fl["k"] == "Path" and fl["path"] == flag_param
+                                if v == "Parentheses":
+                                    if not is_param:
+                                        bad_flags.append(n_)
+                                elif not is_true:
+                                    bad_flags.append(n_)
+                        if bad_flags:
+                            res.bad("USED-FLAG-RECURSE", "parser::set_is_used_expr # %s.%d%s # flag" % (v, i, "".join("." + x for x in leaf)),
+                                    "the operand %s of Expression_::%s is not flagged `value_is_used = true` unconditionally, but the evaluation step of "
+                                    "%s always pops its value: when the flag is false the operand pushes nothing and the step pops a value that is not "
+                                    "its own (or an empty stack)" % ("field %d%s" % (i, "".join("." + x for x in leaf)), v, v), "%s:%d" % (PAR, S.line(bad_flags[0])))
+                            continue
                     key = "parser::set_is_used_expr # %s.%d%s" % (v, i, "".join("." + x for x in leaf))
                     if c is None:
                         res.bad("USED-FLAG-RECURSE", key + " # no-recursion",
